@@ -115,9 +115,12 @@ def run(ctx: Ctx, extended: bool = False) -> None:
             ctx.fail(e.cid, "gym_reseed_reproducible", "re-seeding with the same seed does not reproduce the first observation", info)
         # ---------------- dm_env adapter
         d = JumanjiToDMEnvWrapper(env, key=jax.random.PRNGKey(seed))
-        sched = drv.call("wrappers.gym_schedule", seed=seed, ops=["reset"] + ["step"] * 3 + ["reset", "step"])
+        # long enough to reach the end of an episode when the configuration has a small time limit (truncation vs termination on the LAST step)
+        nd = min(14, int(e.meta.get("time_limit") or 3) + 1)
+        dm_script = ["reset"] + ["step"] * nd + ["reset", "step"]
+        sched = drv.call("wrappers.gym_schedule", seed=seed, ops=dm_script)
         ri = 0
-        for op in ["reset"] + ["step"] * 3 + ["reset", "step"]:
+        for op in dm_script:
             ctx.evaluations += 1
             if op == "reset":
                 ts = d.reset()
